@@ -707,3 +707,91 @@ Proof.
   { apply smem_In. rewrite map_app. apply in_or_app. right. left. reflexivity. }
   rewrite H. cbn [negb]. rewrite andb_false_r. reflexivity.
 Qed.
+
+(* ---------------------------------------------------------------- Go's result is well defined *)
+Local Open Scope nat_scope.
+Lemma sgo_simple_mono (ev1 ev2 : genv -> state -> cexpr -> option (val * state)) r s st x :
+  (forall r0 s0 e y, ev1 r0 s0 e = Some y -> ev2 r0 s0 e = Some y) ->
+  sgo_simple ev1 r s st = Some x -> sgo_simple ev2 r s st = Some x.
+Proof.
+  intros Hev. destruct st as [y e|y t [e|]|y e|op y e|inc y]; cbn [sgo_simple]; intros H.
+  - destruct (ev1 r s e) as [[v s1]|] eqn:E; [|discriminate]. rewrite (Hev _ _ _ _ E). exact H.
+  - destruct (ev1 r s e) as [[v s1]|] eqn:E; [|discriminate]. rewrite (Hev _ _ _ _ E). exact H.
+  - exact H.
+  - destruct (glookup y r) as [[|b]|]; try discriminate.
+    destruct (ev1 r s e) as [[v s1]|] eqn:E; [|discriminate]. rewrite (Hev _ _ _ _ E). exact H.
+  - destruct (glookup y r) as [[|b]|]; try discriminate.
+    destruct (ev1 r s e) as [[v s1]|] eqn:E; [|discriminate]. rewrite (Hev _ _ _ _ E). exact H.
+  - exact H.
+Qed.
+
+Lemma sgo_mono P : forall n m, n <= m ->
+  (forall r s e x, sgo_expr n P r s e = Some x -> sgo_expr m P r s e = Some x) /\
+  (forall r s a x, sgo_args n P r s a = Some x -> sgo_args m P r s a = Some x) /\
+  (forall r s l x, sgo_loc n P r s l = Some x -> sgo_loc m P r s l = Some x) /\
+  (forall r s b x, sgo_body n P r s b = Some x -> sgo_body m P r s b = Some x).
+Proof.
+  induction n as [|n IH]; intros m Hle.
+  { repeat split; intros; discriminate. }
+  destruct m as [|m]; [lia|]. assert (Hle' : n <= m) by lia.
+  destruct (IH m Hle') as (IHE & IHA & IHL & IHB).
+  repeat split.
+  - intros r s e x H. destruct e as [k|b|y|op a b|a|f args]; cbn [sgo_expr] in H |- *; try exact H.
+    + destruct op; cbn [swapped] in H |- *;
+        try (destruct (sgo_expr n P r s b) as [[vb s1]|] eqn:Eb; [|discriminate]; rewrite (IHE _ _ _ _ Eb);
+             destruct (sgo_expr n P r s1 a) as [[va s2]|] eqn:Ea; [|discriminate]; rewrite (IHE _ _ _ _ Ea); exact H);
+        try (destruct (sgo_expr n P r s a) as [[va s1]|] eqn:Ea; [|discriminate]; rewrite (IHE _ _ _ _ Ea);
+             destruct (sgo_expr n P r s1 b) as [[vb s2]|] eqn:Eb; [|discriminate]; rewrite (IHE _ _ _ _ Eb); exact H).
+      * destruct (sgo_expr n P r s a) as [[va s1]|] eqn:Ea; [|discriminate]. rewrite (IHE _ _ _ _ Ea).
+        destruct va as [[| | |[]| | | |]| | |]; try discriminate; [|exact H].
+        destruct (sgo_expr n P r s1 b) as [[vb s2]|] eqn:Eb; [|discriminate]. rewrite (IHE _ _ _ _ Eb). exact H.
+      * destruct (sgo_expr n P r s a) as [[va s1]|] eqn:Ea; [|discriminate]. rewrite (IHE _ _ _ _ Ea).
+        destruct va as [[| | |[]| | | |]| | |]; try discriminate; [exact H|].
+        destruct (sgo_expr n P r s1 b) as [[vb s2]|] eqn:Eb; [|discriminate]. rewrite (IHE _ _ _ _ Eb). exact H.
+    + destruct (sgo_expr n P r s a) as [[va s1]|] eqn:Ea; [|discriminate]. rewrite (IHE _ _ _ _ Ea). exact H.
+    + destruct (glookup f r); [discriminate|]. destruct (find_sfunc f P) as [fg|]; [|discriminate].
+      destruct (sgo_args n P r s args) as [[vs s1]|] eqn:Ea; [|discriminate]. rewrite (IHA _ _ _ _ Ea).
+      destruct (Nat.eqb (length vs) (length (sf_params fg))); [|discriminate]. apply IHB, H.
+  - intros r s a x H. destruct a as [|a rest]; cbn [sgo_args] in H |- *; [exact H|].
+    destruct (sgo_args n P r s rest) as [[vs s1]|] eqn:Er; [|discriminate]. rewrite (IHA _ _ _ _ Er).
+    destruct (sgo_expr n P r s1 a) as [[v s2]|] eqn:Ea; [|discriminate]. rewrite (IHE _ _ _ _ Ea). exact H.
+  - intros r s l x H. destruct l as [|st k|c th el k]; cbn [sgo_loc] in H |- *; [exact H| |].
+    + destruct (sgo_simple (sgo_expr n P) r s st) as [[r1 s1]|] eqn:Es; [|discriminate].
+      rewrite (sgo_simple_mono _ (sgo_expr m P) _ _ _ _ IHE Es). apply IHL, H.
+    + destruct (sgo_expr n P r s c) as [[vc s1]|] eqn:Ec; [|discriminate]. rewrite (IHE _ _ _ _ Ec).
+      destruct vc as [[| | |cb| | | |]| | |]; try discriminate.
+      destruct (sgo_loc n P r s1 (if cb then th else el)) as [s2|] eqn:Eb; [|discriminate]. rewrite (IHL _ _ _ _ Eb). apply IHL, H.
+  - intros r s b x H. destruct b as [c th el k|e|y e k|y t eo k|y e k|op y e k|inc y k|c th el]; cbn [sgo_body] in H |- *.
+    + destruct (sgo_expr n P r s c) as [[vc s1]|] eqn:Ec; [|discriminate]. rewrite (IHE _ _ _ _ Ec).
+      destruct vc as [[| | |cb| | | |]| | |]; try discriminate.
+      destruct (sgo_loc n P r s1 (if cb then th else el)) as [s2|] eqn:Eb; [|discriminate]. rewrite (IHL _ _ _ _ Eb). apply IHB, H.
+    + apply IHE, H.
+    + destruct (sgo_expr n P r s e) as [[v s1]|] eqn:Ee; [|discriminate]. rewrite (IHE _ _ _ _ Ee). apply IHB, H.
+    + destruct eo as [e|].
+      * destruct (sgo_expr n P r s e) as [[v s1]|] eqn:Ee; [|discriminate]. rewrite (IHE _ _ _ _ Ee).
+        destruct (alloc_cell v s1). apply IHB, H.
+      * destruct (alloc_cell (zero_of t) s). apply IHB, H.
+    + destruct (glookup y r) as [[|b]|]; try discriminate.
+      destruct (sgo_expr n P r s e) as [[v s1]|] eqn:Ee; [|discriminate]. rewrite (IHE _ _ _ _ Ee).
+      destruct (write_cell b v s1); [|discriminate]. apply IHB, H.
+    + destruct (glookup y r) as [[|b]|]; try discriminate.
+      destruct (sgo_expr n P r s e) as [[v s1]|] eqn:Ee; [|discriminate]. rewrite (IHE _ _ _ _ Ee).
+      destruct (read_cell b s1); [|discriminate]. destruct (go_binop op v0 v); [|discriminate].
+      destruct (write_cell b v1 s1); [|discriminate]. apply IHB, H.
+    + destruct (glookup y r) as [[|b]|]; try discriminate.
+      destruct (read_cell b s); [|discriminate]. destruct (go_binop _ v _); [|discriminate].
+      destruct (write_cell b v0 s); [|discriminate]. apply IHB, H.
+    + destruct (sgo_expr n P r s c) as [[vc s1]|] eqn:Ec; [|discriminate]. rewrite (IHE _ _ _ _ Ec).
+      destruct vc as [[| | |cb| | | |]| | |]; try discriminate. apply IHB, H.
+Qed.
+
+Theorem sgo_call_fuel_irrelevant P f args n m x y :
+  sgo_call n P f args = Some x -> sgo_call m P f args = Some y -> x = y.
+Proof.
+  unfold sgo_call. destruct (find_sfunc f P) as [fn|]; [|discriminate].
+  destruct (Nat.eqb (length args) (length (sf_params fn))); [|discriminate].
+  intros Hn Hm.
+  pose proof (proj2 (proj2 (proj2 (sgo_mono P n (n + m) ltac:(lia)))) _ _ _ _ Hn) as H1.
+  pose proof (proj2 (proj2 (proj2 (sgo_mono P m (n + m) ltac:(lia)))) _ _ _ _ Hm) as H2.
+  rewrite H1 in H2. injection H2 as ->. reflexivity.
+Qed.
